@@ -13,11 +13,14 @@
 #include "explore.h"
 #include "images.h"
 #include "refdns.h"
+#include "refmd5.h"
+#include "adv.h"
+#include "tmsg.h"
 
 IMG_SERVER(s)
 IMG_CLIENT(ca)
 
-enum { K_BUILDS, K_TRUNC, K_BUILDERS, K_GRID };
+enum { K_BUILDS, K_TRUNC, K_BUILDERS, K_GRID, K_INGEST };
 static int thorough;
 static const struct encoder *cenc[4], *senc[4];
 static const char *CN[4] = { "Base32", "Base64", "Base64u", "Base128" };
@@ -209,10 +212,71 @@ static void builders(int L, const char *domain, const char *srvdomain, int codec
 	vw_direct_end();
 }
 
+
+/* Part C: data chunks built by the client's real build_hostname() are handed to the REAL server loop of a logged-in session
+ * (after the session switched to the codec), and what the server holds for the packet in progress must be exactly the prefix
+ * the builder reported - through handle_null_request()'s own guards, not a re-implementation of them. */
+void s_login_calculate(char *buf, int buflen, const char *pass, int seed);
+static void ingest_job(int codec)
+{
+	static const char *DOMS[3] = { "t.example.com", "a.b", "abcdefghijklmnopqrstuvwxyz.abcdefghijklmnopqrstuvwxyz.example.org" };
+	static const int LS[3] = { 255, 100, 180 };
+	for (int dj = 0; dj < 3; dj++) {
+		const char *dom = DOMS[dj];
+		struct w_server_cfg c = { .topdomain = dom, .password = "sesame", .my_ip = "10.0.0.1", .netmask = 29, .mtu = 1130, .check_ip = 1, .srand_seed = 1 };
+		unsigned char pw32[33]; memset(pw32, 0, sizeof pw32); strcpy((char *)pw32, "sesame");
+		vw_init();
+		adv_boot(&c, 0, 0);
+		struct sockaddr_storage me; socklen_t ml; vw_mkaddr(&me, &ml, "198.51.100.7", 4000);
+		uint8_t pkt[900]; const uint8_t *pl; static rd_msg m; int n;
+		adv_clear(); n = tm_version(pkt, 100, 10, 0x00000502, 0x300, dom); adv_send(&me, ml, pkt, n);
+		if (adv_nout != 1 || (n = tm_null_payload(adv_outs[0].data, adv_outs[0].len, &pl, &m)) < 9 || memcmp(pl, "VACK", 4)) vw_fatal("ingest: no VACK");
+		uint32_t seed = (pl[4] << 24) | (pl[5] << 16) | (pl[6] << 8) | pl[7];
+		uint8_t h[16]; s_login_calculate((char *)h, 16, (const char *)pw32, (int)seed);
+		adv_clear(); n = tm_login(pkt, 101, 10, 0, h, 16, 0x301, dom); adv_send(&me, ml, pkt, n);
+		if (!s_w_users()[0].authenticated) vw_fatal("ingest: login refused");
+		static const int CODE[4] = { 5, 6, 26, 7 };
+		adv_clear(); n = tm_short(pkt, 102, 10, 's', tm_5to8(0), tm_5to8(CODE[codec]), 0x302, dom); adv_send(&me, ml, pkt, n);
+		if (s_w_users()[0].encoder != senc[codec]) vw_fatal("ingest: codec switch to %s not accepted", CN[codec]);
+		int seq = 0, id = 200, cmc = 0;
+		static unsigned char payload[400];
+		for (int li = 0; li < 3; li++) for (int content = 0; content < 2; content++) {
+			int L = LS[li];
+			if ((int)strlen(dom) > L - 24) continue;
+			int cap = (L - (int)strlen(dom)) * (codec == 0 ? 5 : codec == 3 ? 7 : 6) / 8 + 3;
+			for (int plen = 1; plen <= cap + 1 && plen <= (int)sizeof payload; plen++) {
+				for (int i = 0; i < plen; i++) payload[i] = content == 0 ? 0xff : (unsigned char)(i * 7 + 1);
+				char name[600];
+				seq = (seq + 1) & 7;
+				name[0] = '0';
+				name[1] = tm_5to8(((seq & 7) << 2) | 0);
+				name[2] = tm_5to8(0);
+				name[3] = tm_5to8(0);                         /* not the last fragment: the bytes stay in the reassembly buffer */
+				name[4] = "abcdefghijklmnopqrstuvwxyz0123456789"[cmc++ % 36];
+				int k = ca_build_hostname(name + 5, sizeof(name) - 5, (const char *)payload, plen, dom, cenc[codec], L);
+				uint8_t wire[300];
+				int wl = rd_dotted_to_wire(name, (int)strlen(name), wire, sizeof wire);
+				if (wl < 0) { viol("illegal-name", "chunk name for %d bytes (%s, L=%d, domain %s) is not a legal name", plen, CN[codec], L, dom); continue; }
+				n = rd_mkquery(pkt, sizeof pkt, ++id & 0xffff ? id & 0xffff : ++id, wire, wl, 10, 0);
+				adv_clear(); adv_send(&me, ml, pkt, n);
+				xp_count(K_INGEST, 1);
+				struct tun_user *u = &s_w_users()[0];
+				if (u->inpacket.seqno != seq || u->inpacket.len != k || u->inpacket.offset != k || memcmp(u->inpacket.data, payload, k > 0 ? k : 0))
+					viol("server-extracts-different-data", "data chunk carrying %d of %d bytes (%s, L=%d, domain of %d characters) through the real server loop: the session's reassembly buffer holds %d bytes (upstream seq %d, expected %d)%s",
+					     k, plen, CN[codec], L, (int)strlen(dom), u->inpacket.seqno == seq ? u->inpacket.len : 0, u->inpacket.seqno, seq, (u->inpacket.seqno == seq && u->inpacket.len == k) ? ", different bytes" : "");
+				if (!vw_alive(0)) { viol("server-exited", "server ended after a data chunk"); return; }
+			}
+		}
+	}
+	xp_outcome(0xC0800 + codec);
+	if (codec == 3) xp_sample("real server loop: data chunks of every length 1..capacity+1 built by build_hostname() (%s, three domains, L in {255,100,180}, two contents) fed to a logged-in session; the reassembly buffer must hold the reported prefix", CN[codec]);
+}
+
 /* job = (L index) ; inside: all domain lengths, codecs, hdr, payload lengths */
 static int Ls[200], nL;
 static void job(int j)
 {
+	if (j >= nL) { ingest_job(j - nL); return; }
 	int L = Ls[j];
 	int maxd = L - 24 < 128 ? L - 24 : 128;
 	char domain[200], srvdomain[200];
@@ -272,10 +336,10 @@ int main(int argc, char **argv)
 	xp_guard("!C08", NULL, 0);
 	if (a.replay) { job(xp_load_replay(a.replay)); return 0; }
 	hc_quiet();
-	xp_run_jobs(nL, job, a.workers);
+	xp_run_jobs(nL + 4, job, a.workers);
 	char extra[300];
-	snprintf(extra, sizeof extra, "\"builds\":%ld,\"truncating_builds\":%ld,\"builder_messages\":%ld,\"grid_cells\":%ld",
-		 XS->counters[K_BUILDS], XS->counters[K_TRUNC], XS->counters[K_BUILDERS], XS->counters[K_GRID]);
+	snprintf(extra, sizeof extra, "\"builds\":%ld,\"truncating_builds\":%ld,\"builder_messages\":%ld,\"grid_cells\":%ld,\"chunks_through_server_loop\":%ld",
+		 XS->counters[K_BUILDS], XS->counters[K_TRUNC], XS->counters[K_BUILDERS], XS->counters[K_GRID], XS->counters[K_INGEST]);
 	xp_print_stats(extra);
 	return 0;
 }
